@@ -42,7 +42,7 @@ RULE = ("each run draws a history of 0-6 store operations followed by a target o
         "tick and fault kind); distinct = distinct (operation, tick, fault kind, outcome, statement)"
         "; non-trivial = executions in which a fault actually fired")
 PROBES = ["crash_fired", "error_fired", "replace_import", "merge_import", "defective_import",
-          "duplicate_host_import", "conflict_callback_raises", "round_trip", "weird_hostname",
+          "duplicate_host_import", "conflict_callback_raises", "round_trip", "weird_hostname", "via_cli",
           "crash_between_statement_and_commit"]
 COMPONENTS = {
     "real": ["nauyaca.security.tofu.TOFUDatabase", "sqlite3 on a real file (rollback journal, hot-"
@@ -191,8 +191,52 @@ def model_apply(op, state):
     return st
 
 
+def do_op_cli(op, scratch, tag, home):
+    """Execute op through the command line interface (`nauyaca tofu ...`), which
+    opens the default store under $HOME/.nauyaca/tofu.db."""
+    from typer.testing import CliRunner
+
+    from nauyaca.__main__ import app
+    k = op["kind"]
+    args, inp = None, ""
+    if k == "clear":
+        args = ["tofu", "clear", "--force"]
+    elif k == "revoke":
+        args = ["tofu", "revoke", op["host"], "--port", str(op["port"])]
+    elif k == "revoke_by_hostname":
+        args = ["tofu", "revoke", op["host"], "--force"]
+    elif k == "import":
+        f = pathlib.Path(scratch, f"import-{tag}.toml")
+        if not f.exists():
+            write_import_file(op, f)
+        args = ["tofu", "import", str(f)]
+        if not op["merge"]:
+            args.append("--replace")
+        if op["cb"] == "accept":
+            args.append("--force")
+        else:
+            inp = ("y\n" if not op["merge"] else "")
+            if op["cb"] in (None, "refuse"):
+                inp += "n\n" * 12          # decline every conflict prompt
+            # "raises": no further input -> the prompt aborts inside the callback
+    old_home = os.environ.get("HOME")
+    os.environ["HOME"] = home
+    try:
+        r = CliRunner().invoke(app, args, input=inp)
+    finally:
+        if old_home is None:
+            os.environ.pop("HOME", None)
+        else:
+            os.environ["HOME"] = old_home
+    if r.exit_code != 0:
+        raise RuntimeError(f"CLI exit code {r.exit_code}: {(r.output or '')[-200:]}")
+    return "ok"
+
+
 def do_op(db, op, scratch, tag):
     """Execute op on TOFUDatabase db.  Returns outcome string."""
+    if op.get("cli"):
+        return do_op_cli(op, scratch, tag, op["cli"])
     k = op["kind"]
     if k == "trust":
         db.trust(op["host"], op["port"], load_cert(op["cert"]))
@@ -284,6 +328,17 @@ def run_one(ch):
 
         # 1. fault-free execution: tick count and normal outcome
         work = os.path.join(scratch, "work.db")
+        if target["kind"] in ("import", "clear", "revoke", "revoke_by_hostname") and \
+                not (target["kind"] != "import" and ("\n" in target["host"] or target["host"].startswith("-")
+                                                    or not target["host"])) and \
+                ch.chance("via_cli", 0.25):
+            # same operation through the command line entry point
+            home = os.path.join(scratch, "home")
+            os.makedirs(os.path.join(home, ".nauyaca"), exist_ok=True)
+            work = os.path.join(home, ".nauyaca", "tofu.db")
+            target["cli"] = home
+            hist[-1] += " [via CLI]"
+            res.stats["via_cli"] += 1
         restore(work)
         SEAM.reset(None)
         SEAM.enabled = True
@@ -346,7 +401,7 @@ def run_one(ch):
                 if oc == "crashed":
                     res.stats["crash_fired"] += 1
                     # reopen what the dead process left behind (hot journal recovery)
-                    path = os.path.join(crash_dir, "work.db")
+                    path = os.path.join(crash_dir, os.path.basename(work))
                     try:
                         TOFUDatabase(pathlib.Path(path))
                     except Exception:
